@@ -76,10 +76,21 @@ def strain_field(kind, v):
         e = numpy.stack([0.25 + 0.3 * x, 0.35 - 0.5 * x, 0.40 + 0.2 * x], axis=1)
     elif kind == "near":     # nearly equal: sits on the allclose de-duplication edge
         e = numpy.tile([1 / 3 + 1e-9, 1 / 3 - 2e-9, 1 / 3 + 1e-9], (n, 1))
+    elif kind == "mixed-rows":     # a bit-exact hydrostatic row (reference state) among anisotropic rows
+        x = numpy.log(v / V0)
+        e = numpy.stack([0.25 + 0.3 * x, 0.35 - 0.5 * x, 0.40 + 0.2 * x], axis=1)
+        e[0, :] = 1.0 / 3.0
+    elif kind == "two-equal":      # two equal axial fractions: rotated-frame leaves coincide with crystal-frame components
+        e = numpy.tile([0.25, 0.25, 0.5], (n, 1))
+    elif kind == "midpoint":       # e1 = (e2 + e3)/2
+        e = numpy.tile([1.0 / 3.0, 0.2, 1.0 - 1.0 / 3.0 - 0.2], (n, 1))
     elif kind == "near13":   # equal to within 1e-13: inside any sensible de-duplication tolerance
         e = numpy.tile([1 / 3 + 1e-13, 1 / 3 - 2e-13, 1 / 3 + 1e-13], (n, 1))
     else:
         raise ValueError(kind)
+    if kind == "mixed-rows":
+        e[1:] = e[1:] / e[1:].sum(axis=1, keepdims=True)
+        return e
     return e / e.sum(axis=1, keepdims=True)
 
 
@@ -103,6 +114,10 @@ def heat_capacity(kind, t, v):
     v = numpy.asarray(v, float)
     if kind == "const":
         return numpy.full((len(t), len(v)), 3.1e-5)
+    if kind == "tiny":      # a cold / small cell: positive but many orders below the usual 1e-5 Ry/K
+        return 2.5e-11 * (1.0 + t[:, None] / 300.0) * (1.0 + 0.2 * numpy.sin(v[None, :] / 25.0))
+    if kind == "large":
+        return 4.0e-2 * (1.0 + t[:, None] / 900.0) * numpy.ones((1, len(v)))
     return 1e-5 * (1.0 + t[:, None] / 700.0) * (1.0 + 0.1 * numpy.cos(v[None, :] / 40.0))
 
 
